@@ -24,7 +24,7 @@ Your task: produce THREE different refactorings of the code behind this property
   (b) compiles without errors and without new warnings,
   (c) passes the complete existing test suite (`cargo test --offline`),
   (d) is a realistic maintenance edit of moderate size, for example: renaming locals; reordering independent statements; replacing `a <= b` by `!(a > b)` or swapping the arms of an if/else with the negated condition; turning a `for` loop into a `while` loop or into an iterator chain (or the reverse); replacing a `match` by `if let` chains (or the reverse); extracting a block into a private helper function or inlining a small private helper; introducing a local variable for a repeated expression; replacing an index loop by `iter().enumerate()`; using `checked_*`/`saturating_*`/`min`/`max` where the existing guards make it equivalent; adding a redundant but harmless early return that is implied by the existing logic; changing the order in which two independent conditions are tested.
-The three refactorings must be of clearly different kinds and touch different functions where possible. Do NOT change any public signature, any documented panic, or any algorithm in a way that alters results.
+The three refactorings must be of clearly different kinds and touch different functions where possible; at least one of them should restructure a loop or an iterator chain, and at least one should move code between functions (extract or inline a private helper) or change how intermediate state is represented (for example a tuple instead of two locals, an Option instead of a flag). Do NOT change any public signature, any documented panic, or any algorithm in a way that alters results.
 
 For each refactoring k = 1, 2, 3 create, inside the directory {wt}/refactorings/ :
   - r<k>.diff : a unified diff (output of `git diff` run in {wt}) of the refactoring alone relative to the unmodified checkout, touching only files under src/ ;
